@@ -14,6 +14,8 @@ R20.3  validated-return functions (enum member names): the return is dominated b
 R20.2  de-duplication soundness per namespace: membership test in an accumulating set, rename in a loop until unused,
        the final name recorded; sites: dataclass fields, enum members, class names, module stems, operation methods,
        operation parameters
+R20.13 a model class never takes a name the endpoint modules import and use themselves (Protocol, HttpTransport, the exception aliases ...): every such
+       name is in the table the models emitter's class-name de-collision refuses                                         [= R1.24 / R6.15 / R13.13]
 R20.12 the tag attribute names of APIClient are kept apart from the names the class uses itself (every fixed member name is refused by the sanitiser) [= R7.14]
 R20.11 two inline schemas with the same made-up name are kept apart (name tied to the document node)                                   [= R2.21]
 """
@@ -89,6 +91,7 @@ def run(repo: Repo, rep: Report, tier: str) -> None:
     rule_stored_names_are_fixed_points(repo, rep, "R20.5")
     # R20.6: tags are the one namespace without a de-duplication step - two tag groups never derive the same module / class / attribute
     # name because the grouping key is at least as coarse as those names                                                   [= R7.7]
+    rule_models_spare_endpoint_names(repo, rep, "R20.13")
     _reuse20(repo, rep, "c07", {"R7.7": "R20.6", "R7.14": "R20.12"})  # R20.12: a tag attribute never takes the name of a member of APIClient
     # R20.7: a reference is resolved by the exact name it carries: when two schemas differ only by what sanitising removes, a lookup
     # under the sanitised name returns the other schema                                                                     [= R2.10]
@@ -524,3 +527,82 @@ def rule_stored_names_are_fixed_points(repo: Repo, rep: Report, rule: str = "R20
                                   f"`{norm(v)[:40]}` can hold a name that was assembled after sanitising (de-collision suffix), but {sorted(set(consumers))[0]} sanitises it again: "
                                   "`id_`+`_2` becomes `id_2` there and duplicates a real `id_2` (SyntaxError: duplicate argument in the generated signature)", pp.loc(v))
     rep.require(n >= 1, f"{rule}: no parameter record with a \"name\" entry found in process_parameters (anchor)")
+
+
+# ------------------------------------------------------------------------------------------------ R20.13 model classes vs. names the endpoint modules use themselves
+def rule_models_spare_endpoint_names(repo: Repo, rep, rule: str = "R20.13") -> None:
+    """An endpoint module imports typing constructs, core classes and the exception aliases for its own code (`class XClientProtocol(Protocol)`,
+    `raise NotFoundError(response=response)`, `HttpTransport`, `DataclassSerializer.serialize(...)`) and, after them, the models it mentions.  A
+    schema whose class name equals one of those names takes its place: the Protocol class cannot be created, `raise GoneError(...)` constructs the
+    dataclass (TypeError instead of an HTTPError).  Decided as a table agreement: every class-shaped name the endpoint templates use, and every
+    alias name `get_exception_class_name` can produce, is in the set the models emitter consults when it fixes the class names."""
+    import re as _re
+
+    # (1) names used by the templates of visit/endpoint
+    used: Dict[str, str] = {}
+    for mn, mod in repo.modules.items():
+        if ".visit.endpoint" not in mn:
+            continue
+        for c in ast.walk(mod.tree):
+            if isinstance(c, ast.Call) and isinstance(c.func, ast.Attribute) and c.func.attr == "write_line" and c.args:
+                parts = []
+                a = c.args[0]
+                if isinstance(a, ast.JoinedStr):
+                    parts = [v.value for v in a.values if isinstance(v, ast.Constant) and isinstance(v.value, str)]
+                elif const_str(a) is not None:
+                    parts = [const_str(a)]
+                for txt in parts:
+                    for m_ in _re.finditer(r"(?:raise |\(|: |-> |\[| )([A-Z][A-Za-z]+)(?=\(|\)|\[|\.|:| \||$)", txt or ""):
+                        nm = m_.group(1)
+                        if nm in ("Protocol", "HttpTransport", "DataclassSerializer", "AsyncIterator", "HTTPError", "ClientError", "ServerError", "Union", "Literal", "NoReturn"):
+                            if txt.lstrip().startswith(("#", '"""')):
+                                continue
+                            used.setdefault(nm, f"{mod.relpath}:{c.lineno}")
+    used.pop("NoReturn", None)  # imported for an annotation the generator no longer writes into code lines that a model could break
+    rep.require(len(used) >= 4, f"{rule}: only {sorted(used)} found as names used by the endpoint templates (floor 4)")
+    # (2) alias names
+    hs = repo.module("core.http_status_codes")
+    aliases: Set[str] = set()
+    for st in hs.tree.body:
+        if isinstance(st, (ast.Assign, ast.AnnAssign)) and isinstance(st.value, ast.Dict):
+            tg = st.targets[0] if isinstance(st, ast.Assign) else st.target
+            if isinstance(tg, ast.Name) and tg.id == "HTTP_EXCEPTION_NAMES":
+                aliases = {const_str(v) for v in st.value.values if const_str(v)}
+    rep.require(len(aliases) >= 20, f"{rule}: HTTP_EXCEPTION_NAMES has {len(aliases)} literal entries (floor 20)")
+    # (3) the set the models emitter consults
+    me = repo.module("emitters.models_emitter")
+    emit = me.classes["ModelsEmitter"].methods.get("emit") if "ModelsEmitter" in me.classes else None
+    if emit is None:
+        raise AnalysisError(f"{rule}: anchor vanished: ModelsEmitter.emit")
+    consts: Dict[str, ast.AST] = {}
+    for st in me.tree.body:
+        if isinstance(st, (ast.Assign, ast.AnnAssign)) and st.value is not None:
+            tg = st.targets[0] if isinstance(st, ast.Assign) else st.target
+            if isinstance(tg, ast.Name):
+                consts[tg.id] = st.value
+    refused: Set[str] = set()
+    consulted = []
+    for x in ast.walk(emit.node):
+        if isinstance(x, ast.Compare) and len(x.ops) == 1 and isinstance(x.ops[0], ast.In) and isinstance(x.comparators[0], ast.Name) and x.comparators[0].id in consts:
+            v = consts[x.comparators[0].id]
+            lits = {const_str(e) for e in ast.walk(v) if isinstance(e, ast.Constant) and isinstance(e.value, str)}
+            if any(isinstance(e, ast.Name) and e.id == "HTTP_EXCEPTION_NAMES" for e in ast.walk(v)):
+                lits |= aliases
+            if lits:
+                consulted.append(x)
+                refused |= {l for l in lits if l}
+    sub = f"{me.relpath}:ModelsEmitter.emit class names vs. names the endpoint modules use themselves"
+    need = {**{a: f"{hs.relpath}:1" for a in sorted(aliases)}, **used}
+    # a class name comes out of sanitize_class_name, which joins `word.capitalize()` pieces: no two capitals in a row - `HTTPError` becomes `HttpError`
+    scn = repo.module("core.utils").classes["NameSanitizer"].methods.get("sanitize_class_name")
+    if scn is not None and any(isinstance(c, ast.Call) and isinstance(c.func, ast.Attribute) and c.func.attr == "capitalize" for c in ast.walk(scn.node)) and any(
+            isinstance(c, ast.Call) and isinstance(c.func, ast.Attribute) and c.func.attr == "join" for c in ast.walk(scn.node)):
+        need = {n_: w_ for n_, w_ in need.items() if not _re.search(r"[A-Z]{2}", n_)}
+    missing = sorted(n for n in need if n not in refused)
+    if missing:
+        rep.violation(rule, sub, f"{emit.fq}|model-class-shadows-endpoint-name|{','.join(missing[:6])}{'...' if len(missing) > 6 else ''}",
+                      f"a schema called {missing[:5]}{' ...' if len(missing) > 5 else ''} keeps that class name, and every endpoint module that mentions the model imports it after its own import of the "
+                      "same name: `class XClientProtocol(Protocol)` / `raise NotFoundError(response=response)` then use the dataclass - the module cannot be imported, or a declared "
+                      f"error status raises TypeError instead of an HTTPError ({len(missing)} unprotected name(s))", emit.loc(consulted[0]) if consulted else emit.loc())
+    else:
+        rep.ok(rule, sub, f"{len(need)} names ({len(aliases)} exception aliases, {sorted(used)}) are refused by the class-name de-collision", emit.loc(consulted[0]))
